@@ -1262,7 +1262,7 @@ pub fn pay_transport_sessions(bin: &str, seed: u64, slow_secs: &[u64], drops: u6
                         // the sender retries at once: a second pay while the first one is running?
                         let before = s.pays_seen.len();
                         s.send_doc(&hook("x-retry", tramp_request(&inv, 2, 1_005_000, 1_005_000, height + 1100, height)), 0);
-                        s.pump_for(Duration::from_millis(2500));
+                        s.pump_until(move |s| s.pays_seen.len() > before || s.out_eof, Duration::from_secs(8));
                         let mut g = acc.lock().unwrap();
                         g.e("R05-e2e", 1);
                         if s.pays_seen.len() > before {
@@ -1296,7 +1296,7 @@ pub fn pay_transport_sessions(bin: &str, seed: u64, slow_secs: &[u64], drops: u6
                         // the sender retries the failed-back set: is the paid invoice paid again?
                         drop(g);
                         s.send_doc(&hook("x-retry", tramp_request(&inv, 2, 1_005_000, 1_005_000, height + 1100, height)), 0);
-                        s.pump_for(Duration::from_millis(3000));
+                        s.pump_until(move |s| s.pays_seen.len() > pays || s.out_eof, Duration::from_secs(8));
                         g = acc.lock().unwrap();
                         if s.pays_seen.len() > pays {
                             g.v("R05|e2e-pay-again-after-the-accepted-payment-completed", format!("{} pay commands: the first was accepted and its part completed; the retried set was paid again", s.pays_seen.len()));
